@@ -24,7 +24,7 @@ SPARK_TY = {"int": "long", "str": "string", "bool": "boolean"}
 
 
 def histories():
-    hs = [h for h in c14.mode_pair_histories("quick") if not any(o[0] == "cols" for o in h) or True]
+    hs = list(c14.mode_pair_histories("record"))      # its own tier: trimming the quick tier must not change the recording
     A, B, S = c14.FR_AB, c14.FR_BA, c14.FR_AS
     hs += [
         [["save", "t", "append", None, A], ["exists", "t"], ["rtable", "t"]],
@@ -42,6 +42,11 @@ def histories():
         [["wpath", "p", "parquet", "ignore", "overwrite", A], ["wpath", "p", "parquet", "ignore", "overwrite", B], ["rpath", "p", "parquet"]],
         [["rpath", "p", "parquet"]],
     ]
+    # one reader object re-used for files with other columns / formats (Spark's JSON reader returns the columns sorted by
+    # name: histories that write a frame with unsorted column names as JSON are left out)
+    def json_sorted(h):
+        return all(o[0] != "wpath" or o[2] != "json" or [c[0] for c in o[5]["cols"]] == sorted(c[0] for c in o[5]["cols"]) for o in h)
+    hs += [h for h in c14.reader_histories("record") if json_sorted(h)]
     return hs
 
 
@@ -83,6 +88,7 @@ def main():
             shutil.rmtree(ROOT + "/wh", ignore_errors=True)
             base = f"{ROOT}/h{hi}"
             obs = []
+            kept = None
             for o in ops:
                 k = o[0]
                 try:
@@ -109,7 +115,11 @@ def main():
                         obs.append(read_obs(spark.table(o[1])))
                     elif k == "rpath":
                         kw = {"header": True, "inferSchema": True} if o[2] == "csv" else {}
-                        obs.append(read_obs(getattr(spark.read, o[2])(f"{base}/{o[1]}", **kw)))
+                        if len(o) > 3:
+                            reader = kept = kept or spark.read
+                        else:
+                            reader = spark.read
+                        obs.append(read_obs(getattr(reader, o[2])(f"{base}/{o[1]}", **kw)))
                     elif k == "drop":
                         spark.sql(f"DROP TABLE {o[1]}")
                         obs.append(["ok"])
